@@ -199,15 +199,10 @@ def run_case(case):
             'samples': samples, 'nontrivial': nontrivial}
 
 
-def replay(w):
-    from symx.core import fval
+def _observe(n, nt, edges, R, T, s):
+    """real ExchangeMap on concrete numbers -> (list of deviations from the property, collinear flag, output)"""
     from symx.mol import make_molecule, simple_atoms
     from gaddlemaps import ExchangeMap
-    v = {k: fval(x) for k, x in w['inputs'].items()}
-    n, nt, edges = w['n'], w['nt'], [tuple(e) for e in w['edges']]
-    R = np.array([[v['r%d_%d' % (i, k)] for k in range(3)] for i in range(n)])
-    T = np.array([[v['t%d_%d' % (j, k)] for k in range(3)] for j in range(nt)])
-    s = v['s']
     ref = make_molecule('REF', simple_atoms(n, 'C', 'REF'), edges, R)
     tgt = make_molecule('TGT', simple_atoms(nt, 'A', 'TGT'), [(j, j + 1) for j in range(nt - 1)], T)
     deg = [sum(1 for e in edges if i in e) for i in range(n)]
@@ -225,12 +220,43 @@ def replay(w):
             collinear = True
         want = R[a] + s * (T[k] - R[a])
         rec_anchor = [anc for anc, tl in m.equivalences.items() if k in tl]
-        if sorted(d)[0] < sorted(d + [np.inf])[1] - 1e-9 and rec_anchor != [a]:
+        unique = sorted(d)[0] < sorted(d + [np.inf])[1] - 1e-9
+        if unique and rec_anchor != [a]:
             bad.append('target atom %d assigned to anchor %s although atom %d is the closest atom with two bonds (distances %s)' % (
                 k, rec_anchor, a, [round(x, 6) for x in d]))
         if not np.all(np.isfinite(out[k])):
             bad.append('target atom %d mapped to non-finite coordinates' % k)
-        elif sorted(d)[0] < sorted(d + [np.inf])[1] - 1e-9 and np.abs(out[k] - want).max() > 1e-9:
+        elif unique and np.abs(out[k] - want).max() > 1e-9:
             bad.append('target atom %d at %s instead of a + s (p - a) = %s' % (k, np.round(out[k], 6).tolist(), np.round(want, 6).tolist()))
+    return bad, collinear, out
+
+
+def replay(w):
+    from symx.core import fval
+    v = {k: fval(x) for k, x in w['inputs'].items()}
+    n, nt, edges = w['n'], w['nt'], [tuple(e) for e in w['edges']]
+    R = np.array([[v['r%d_%d' % (i, k)] for k in range(3)] for i in range(n)])
+    T = np.array([[v['t%d_%d' % (j, k)] for k in range(3)] for j in range(nt)])
+    s = v['s']
+    bad, collinear, out = _observe(n, nt, edges, R, T, s)
+    if not bad and w.get('obligation') == 'nearest':
+        # The solver showed that the recorded anchor is not decided by the exact order of the distances.  The observable
+        # consequence is looked for on the witness reference with target atoms placed next to the bisector plane of each
+        # pair of anchors (gap between the two distances 1e-4 .. 8e-4 nm, either sign), s = 1/2.
+        deg = [sum(1 for e in edges if i in e) for i in range(n)]
+        anchors = [i for i in range(n) if deg[i] >= 2]
+        for i in anchors:
+            for j in anchors:
+                if i >= j or bad:
+                    continue
+                A, B = R[i], R[j]
+                u = (B - A) / np.linalg.norm(B - A)
+                wv = np.cross(u, [0.3, 0.5, 0.8]); wv = wv / np.linalg.norm(wv)
+                for lam in (1e-4, 2e-4, 4e-4, -1e-4, -2e-4, -4e-4):
+                    Tp = np.array([(A + B) / 2 + 0.37 * wv + lam * u] * nt) + np.array([[0.0, 0.0, 0.01 * q] for q in range(nt)])
+                    b2, c2, out = _observe(n, nt, edges, R, Tp, 0.5)
+                    if b2:
+                        bad, collinear, T, s = b2, c2, Tp, 0.5
+                        break
     return {'reproduced': bool(bad), 'what': 'ExchangeMap(ref)(ref) (%s anchor): %s' % ('collinear' if collinear else 'generic', '; '.join(bad)[:300]),
-            'detail': {'ref': R.tolist(), 'tgt': T.tolist(), 's': s, 'edges': edges, 'out': np.asarray(out, dtype=float).tolist()}}
+            'detail': {'ref': R.tolist(), 'tgt': np.asarray(T).tolist(), 's': s, 'edges': edges, 'out': np.asarray(out, dtype=float).tolist()}}
